@@ -383,7 +383,8 @@ pub fn run(args: &[String]) {
                                 .name("app".to_string())
                                 .spawn(move || {
                                     let mut k = 0u64;
-                                    while !stop.load(Ordering::SeqCst) {
+                                    // (at most 30 observations per run: each lists every id in the file)
+                                    while !stop.load(Ordering::SeqCst) && k < 30 {
                                         k += 1;
                                         ev_mark("ev:flush_begin", k);
                                         hd.flush();
